@@ -265,6 +265,41 @@ func docsFor(s map[string]any, rng *rand.Rand, n int) []docCase {
 		}
 	}
 	if s["k"] == "object" {
+		// a key that equals a declared property's name up to letter case is another key: with the declared (optional)
+		// property absent it is an additional property / an undeclared extra, not that property
+		ad, _ := s["addl"].(map[string]any)
+		for _, p := range s["props"].([]any) {
+			pm := p.(map[string]any)
+			name := pm["name"].(string)
+			other := strings.ToUpper(name)
+			if other == name {
+				other = strings.ToLower(name)
+			}
+			if pm["req"].(bool) || other == name {
+				continue
+			}
+			d, _ := sampleValue(s, rng, 0).(map[string]any)
+			if d == nil {
+				continue
+			}
+			delete(d, name)
+			if _, clash := d[other]; clash {
+				continue
+			}
+			switch ad["k"] {
+			case "schema":
+				v := sampleValue(ad["s"].(map[string]any), rng, 1)
+				for v == nil {
+					v = sampleValue(ad["s"].(map[string]any), rng, 1)
+				}
+				d[other] = v
+			default:
+				d[other] = json.Number("7")
+			}
+			out = append(out, docCase{doc: d, mut: "none"})
+		}
+	}
+	if s["k"] == "object" {
 		// integers written in float notation (5.0, 1e3, the int64 limits with ".0" or an exponent): whether a decoder takes
 		// them is its own business ("maybe"), but if it does the value must be the integer the text denotes
 		for _, p := range s["props"].([]any) {
